@@ -497,6 +497,16 @@ class Expander:
             if isinstance(f, ast.Attribute) and nm in ("sort", "fill", "resize", "partition", "itemset", "clip", "round", "put") \
                     and isinstance(f.value, ast.Name) and (nm not in ("clip", "round") or any(k.arg == "out" for k in node.keywords)):
                 hit.append(f.value.id)
+            # `f(.., out=z)` with z a plain local: z now holds f(..) - the value the same call returns without `out`
+            outs = [k for k in node.keywords if k.arg == "out"]
+            if len(outs) == 1 and isinstance(outs[0].value, ast.Name) and hit == [outs[0].value.id] and not isinstance(f, ast.Attribute) \
+                    and outs[0].value.id in env:
+                plain = ast.copy_location(ast.Call(func=node.func, args=node.args, keywords=[k for k in node.keywords if k.arg != "out"]), node)
+                try:
+                    env[outs[0].value.id] = self.eval(plain, env)
+                    return
+                except Unsupported:
+                    pass
             for name in hit:
                 if name in env and not isinstance(env[name], PoisonV):
                     env[name] = PoisonV(f"`{name}` is updated in place by `{ast.unparse(node)[:60]}` (line {getattr(node, 'lineno', 0)}), "
